@@ -14,7 +14,11 @@ static COUNTER: AtomicUsize = AtomicUsize::new(0);
 
 fn t(secs: u64) -> SystemTime { SystemTime::UNIX_EPOCH + Duration::from_secs(1_000_000_000 + secs) }
 fn secs(t: SystemTime) -> u64 { t.duration_since(SystemTime::UNIX_EPOCH).unwrap().as_secs() - 1_000_000_000 }
-pub fn content(size: usize, seed: usize) -> Vec<u8> { (0..size).map(|i| ((seed * 31 + i * 7) % 251) as u8).collect() }
+/// seeds >= 100: uniform content (every byte `seed - 100`): files that differ only in length, or only by trailing NUL bytes
+pub fn content(size: usize, seed: usize) -> Vec<u8> {
+  if seed >= 100 { return vec![(seed - 100) as u8; size]; }
+  (0..size).map(|i| ((seed * 31 + i * 7) % 251) as u8).collect()
+}
 fn sum(b: &[u8]) -> u64 { b.iter().fold(0u64, |a, x| (a * 31 + *x as u64) % 1_000_003) }
 
 enum Stamp { E(bool), M(Option<SystemTime>), H(Option<[u8; 32]>) }
